@@ -508,7 +508,7 @@ where
                 // we are opening an existing file
                 Some(entry)
             }
-            Err(_)
+            Err(Error::NotFound)
                 if (mode == Mode::ReadWriteCreate)
                     | (mode == Mode::ReadWriteCreateOrTruncate)
                     | (mode == Mode::ReadWriteCreateOrAppend) =>
@@ -517,9 +517,13 @@ where
                 // asked us to create it
                 None
             }
-            _ => {
+            Err(Error::NotFound) => {
                 // We are opening a non-existant file, and that's not OK.
                 return Err(Error::NotFound);
+            }
+            Err(e) => {
+                // We couldn't even look - that doesn't mean it isn't there
+                return Err(e);
             }
         };
 
